@@ -79,6 +79,7 @@ type World struct {
 	FaultOps              []string // labels of the calls during which an injected fault fired
 	NeedReopen            bool     // a failed FlushRevert: contents unspecified until re-opened
 	OpenFailed            bool
+	BytesOrderOnly        bool // the alphabet never creates a collection with a custom order
 	NoRoots               bool               // the file holds no root record and NewStore said so
 	DstFault              func(dst *MemFile) // arms fault injection on a CopyTo destination
 	depthObs              []depthObs
@@ -221,20 +222,18 @@ func (w *World) callbacks() gkvlite.StoreCallbacks {
 			return err
 		}
 	}
-	// A comparator must be supplied on load whenever a durable collection uses
-	// a non-default order; it is also installed when the C17 bit asks for it.
-	need := m&CBKeyCompare != 0
-	for _, st := range w.M.Flushed {
-		for _, c := range st.Colls {
-			if orderOf(c.Cmp) != "bytes" {
-				need = true
-			}
-		}
-	}
+	// A comparator must be supplied on load (re-open and FlushRevert) whenever a
+	// durable collection uses a non-default order, and the callbacks are fixed
+	// when the store is opened, i.e. before such a collection may exist.  The
+	// callback is therefore installed unless the profile promises bytes order
+	// only (then the C17 bit alone decides).
+	need := m&CBKeyCompare != 0 || !w.BytesOrderOnly
 	if need {
 		cb.KeyCompareForCollection = func(name string) gkvlite.KeyCompare {
-			if c, ok := w.M.Durable().Colls[name]; ok {
-				return Cmps[orderOf(c.Cmp)]
+			for i := len(w.M.Flushed) - 1; i >= 0; i-- {
+				if c, ok := w.M.Flushed[i].Colls[name]; ok {
+					return Cmps[orderOf(c.Cmp)]
+				}
 			}
 			return nil
 		}
@@ -1227,6 +1226,7 @@ func (w *World) iterNext(label string, oi *OpenIter) {
 			w.Fail("iterator", "extra-item", "%s: iterator delivered %q beyond the pinned version", label, oi.It.Result().Key)
 		}
 		oi.Closed = true
+		Quiesce()
 		w.logf("%s=end", label)
 		return
 	}
@@ -1258,6 +1258,7 @@ func (w *World) IterClose(i int) {
 	w.Trans++
 	w.Iters[i].It.Close()
 	w.Iters[i].Closed = true
+	Quiesce() // the producer unwinds and releases the version it pinned now
 	w.logf("%s", label)
 }
 
